@@ -5,7 +5,7 @@
 From Coq Require Extraction.
 From Coq Require Import ExtrOcamlBasic ExtrOcamlNatBigInt ExtrOcamlZBigInt.
 From Coq Require Import ZArith.
-From Sfs Require Import Index ArrayM Scalar Spectrum Project Create Stat Npy Text Stream.
+From Sfs Require Import Index ArrayM Scalar Spectrum Project Create SampleParse Stat Npy Text Stream.
 
 Extraction Blacklist List String Int Big_int_Z.
 
@@ -38,6 +38,7 @@ Extraction "model.ml"
   Spectrum.folded_cells Spectrum.fold0 Spectrum.mirror_arr Spectrum.spectrum_sum Spectrum.marg_spec
   Project.binomN Project.hyp Project.project Project.project_spec
   Create.classify Create.build_map Create.map_shape Create.build_reader Create.read_site
+  SampleParse.parse_samples_file SampleParse.parse_samples_inline
   Create.init_sstate Create.create_run Create.rec_counts Create.rec_complete
   Stat.calculate Stat.view_run
   Npy.write_npy Npy.read_npy Npy.parse_dict Npy.decode_value Npy.dec
